@@ -649,7 +649,7 @@ func c14Entry(t *testing.T, prop string) {
 	if prop == "C15" {
 		defer c15Witness(t, run)
 	}
-	n := run.N(6, 36)
+	n := run.N(18, 72)
 	run.Cases("e2e-"+prop, n, func(i int, rng *verifkit.Rand) {
 		cfg := c14GenCfg(rng, run.Thorough())
 		run.Input(cfg, true)
